@@ -107,7 +107,8 @@ def decisionsMatchOther : Bool :=
   genUniverse.all fun a =>
     (genUniverse.all fun b =>
       errOf (tempMul (genTab Rat) (.temp a.gen) (.temp b.gen)) == errOf (tempMul Ref.exactTab (.temp a.exact) (.temp b.exact))
-      && errOf (tempDivide (genTab Rat) (.temp a.gen) (.temp b.gen)) == errOf (tempDivide Ref.exactTab (.temp a.exact) (.temp b.exact)))
+      && errOf (tempDivide (genTab Rat) (.temp a.gen) (.temp b.gen)) == errOf (tempDivide Ref.exactTab (.temp a.exact) (.temp b.exact))
+      && errOf (tempFloorDivide (genTab Rat) (.temp a.gen) (.temp b.gen)) == errOf (tempFloorDivide Ref.exactTab (.temp a.exact) (.temp b.exact)))
     && errOf (diffHelper (genTab Rat) a.gen) == errOf (diffHelper Ref.exactTab a.exact)
     && errOf (tempUnary (genTab Rat) .square a.gen) == errOf (tempUnary Ref.exactTab .square a.exact)
     && errOf (tempUnary (genTab Rat) .sqrt a.gen) == errOf (tempUnary Ref.exactTab .sqrt a.exact)
